@@ -227,6 +227,41 @@ class StreamSession:
             except StopIteration:
                 break
 
+    def _drain_output(self) -> None:
+        """Consume the rest of the output stream so the transport ends at a message boundary.
+
+        Log batches met on the way are still delivered to ``on_log``.  The
+        drain does not stop at the first thing that goes wrong above the
+        transport: an error batch is followed by the stream's EOS marker, and
+        a raising ``on_log`` callback leaves every later batch unread -- in
+        both cases the leftover bytes would be parsed as the start of the next
+        call's response.  A callback failure is re-raised once the stream has
+        been consumed.
+        """
+        if self._output_reader is None:
+            try:
+                self._output_reader = ValidatedReader(ipc.open_stream(self._reader_stream), self._ipc_validation)
+            except (pa.ArrowInvalid, OSError, StopIteration):
+                return
+        _MAX_DRAIN = 10_000
+        on_log = self._on_log
+        callback_error: Exception | None = None
+        with contextlib.suppress(StopIteration, pa.ArrowInvalid, OSError):
+            for _ in range(_MAX_DRAIN):
+                try:
+                    _read_batch_with_log_check(self._output_reader, on_log, self._external_config, shm=self._shm)
+                except RpcError:
+                    continue
+                except (StopIteration, pa.ArrowInvalid, OSError):
+                    raise
+                except Exception as exc:
+                    if on_log is None:
+                        raise
+                    callback_error = exc
+                    on_log = None
+        if callback_error is not None:
+            raise callback_error
+
     def close(self) -> None:
         """Close input stream (signals EOS) and drain remaining output."""
         if self._closed:
@@ -239,15 +274,7 @@ class StreamSession:
         else:
             with new_ipc_stream(self._writer_stream, _EMPTY_SCHEMA):
                 pass
-        if self._output_reader is None:
-            try:
-                self._output_reader = ValidatedReader(ipc.open_stream(self._reader_stream), self._ipc_validation)
-            except (pa.ArrowInvalid, OSError, StopIteration):
-                return
-        _MAX_DRAIN = 10_000
-        with contextlib.suppress(StopIteration, RpcError, pa.ArrowInvalid, OSError):
-            for _ in range(_MAX_DRAIN):
-                _read_batch_with_log_check(self._output_reader, self._on_log, self._external_config, shm=self._shm)
+        self._drain_output()
 
     def cancel(self) -> None:
         """Signal the server to stop processing and discard pending work.
@@ -277,15 +304,7 @@ class StreamSession:
                 self._input_writer.close()
         except _TRANSPORT_ERRORS:
             return
-        if self._output_reader is None:
-            try:
-                self._output_reader = ValidatedReader(ipc.open_stream(self._reader_stream), self._ipc_validation)
-            except (pa.ArrowInvalid, OSError, StopIteration):
-                return
-        _MAX_DRAIN = 10_000
-        with contextlib.suppress(StopIteration, RpcError, pa.ArrowInvalid, OSError):
-            for _ in range(_MAX_DRAIN):
-                _read_batch_with_log_check(self._output_reader, self._on_log, self._external_config, shm=self._shm)
+        self._drain_output()
 
     def __enter__(self) -> StreamSession:
         """Enter context manager."""
@@ -404,7 +423,27 @@ class _RpcProxy:
                     object.__setattr__(transport, "_stream_opened", True)
                 header = None
                 if info.header_type is not None:
-                    header = _read_stream_header(transport.reader, info.header_type, ipc_validation, on_log, ext_cfg)
+                    try:
+                        header = _read_stream_header(
+                            transport.reader, info.header_type, ipc_validation, on_log, ext_cfg
+                        )
+                    except (RpcError, *_TRANSPORT_ERRORS):
+                        raise
+                    except Exception:
+                        # The header stream was read to its end and carried a
+                        # header (an init error surfaces as RpcError), so the
+                        # server is now waiting for input: end the stream, or
+                        # the next request is consumed as this stream's input.
+                        with contextlib.suppress(Exception):
+                            StreamSession(
+                                transport.writer,
+                                transport.reader,
+                                None,
+                                external_config=ext_cfg,
+                                ipc_validation=ipc_validation,
+                                shm=shm,
+                            ).close()
+                        raise
                 session = StreamSession(
                     transport.writer,
                     transport.reader,
